@@ -8,6 +8,7 @@ package main
 // property verdict into a violation.
 
 import (
+	"encoding/json"
 	"os"
 	"path/filepath"
 	"regexp"
@@ -134,4 +135,99 @@ func runSeed(p *Property, s Seed, dir string) SeedResult {
 		return SeedResult{s.Name, "caught", strings.Join(fired, "; ")}
 	}
 	return SeedResult{s.Name, "missed", "expected " + s.Expect + "; fired: " + strings.Join(fired, "; ")}
+}
+
+// ---- seeded patches (sub-agent mutants and reverted fixes), thorough tier -------------------
+
+type patchSeed struct {
+	Name   string
+	Path   string
+	Expect bool // the property's own check is expected to report it
+}
+
+func patchSeedsFor(p *Property, verif string) []patchSeed {
+	var out []patchSeed
+	dirs, _ := filepath.Glob(filepath.Join(verif, "seeded", "*", "meta.json"))
+	for _, m := range dirs {
+		data, err := os.ReadFile(m)
+		if err != nil {
+			continue
+		}
+		var meta struct {
+			ID     string   `json:"id"`
+			Broken string   `json:"property_broken"`
+			Checks []string `json:"checks_reporting_violation"`
+		}
+		if json.Unmarshal(data, &meta) != nil {
+			continue
+		}
+		rel := false
+		for _, c := range meta.Checks {
+			if c == p.ID {
+				rel = true
+			}
+		}
+		if meta.Broken == p.ID || rel {
+			out = append(out, patchSeed{meta.ID, filepath.Join(filepath.Dir(m), "patch.diff"), true})
+		}
+	}
+	// reverted fixes: known_findings "fixed: property=<id> <commit> ..." lines name the property
+	kf, _ := os.ReadFile(filepath.Join(verif, "known_findings.jsonl"))
+	for _, line := range strings.Split(string(kf), "\n") {
+		if !strings.HasPrefix(line, "fixed: property="+p.ID+" ") {
+			continue
+		}
+		fields := strings.Fields(line)
+		if len(fields) < 3 {
+			continue
+		}
+		commit := fields[2]
+		matches, _ := filepath.Glob(filepath.Join(verif, "seeded-fix-reverts", commit+"-*.diff"))
+		for _, m := range matches {
+			out = append(out, patchSeed{"revert-" + commit, m, true})
+		}
+	}
+	return out
+}
+
+func runPatchSeeds(p *Property, dir, verif string) []SeedResult {
+	var out []SeedResult
+	for _, ps := range patchSeedsFor(p, verif) {
+		tmp, err := patchedCopy(dir, ps.Path)
+		if err != nil {
+			out = append(out, SeedResult{ps.Name, "skipped", "patch does not apply to the current tree"})
+			continue
+		}
+		w, err := Load(LoadOpts{Dir: tmp})
+		if err != nil {
+			os.RemoveAll(tmp)
+			out = append(out, SeedResult{ps.Name, "nocompile", err.Error()})
+			continue
+		}
+		c := NewCtx(p.ID, w)
+		func() {
+			defer func() {
+				if r := recover(); r != nil {
+					c.Undecided("internal", "panic", "checker panicked: %v", r)
+				}
+			}()
+			p.Run(c)
+		}()
+		os.RemoveAll(tmp)
+		var fired []string
+		for _, o := range c.Obs {
+			if o.Status == Violated {
+				fired = append(fired, o.Rule+" "+o.Key)
+			}
+		}
+		if len(fired) > 0 {
+			if len(fired) > 4 {
+				fired = append(fired[:4], "...")
+			}
+			out = append(out, SeedResult{ps.Name, "caught", strings.Join(fired, "; ")})
+		} else {
+			out = append(out, SeedResult{ps.Name, "missed", "no violation reported"})
+		}
+	}
+	return out
 }
